@@ -1,20 +1,22 @@
 #!/bin/bash
 # regenerate harness/go.mod and go.sum from /repo's (same dependency versions, offline)
+# usage: gomod.sh [harness-dir [repo-dir]]   (defaults: /verif/harness /repo)
 set -e
-H=/verif/harness
+H=${1:-/verif/harness}
+R=${2:-/repo}
 {
   echo "module verif/harness"
   echo
-  grep -E '^go ' /repo/go.mod
+  grep -E '^go ' $R/go.mod
   echo
   echo "require github.com/anoideaopen/foundation v0.0.0"
   echo
-  echo "replace github.com/anoideaopen/foundation => /repo"
+  echo "replace github.com/anoideaopen/foundation => $R"
   echo
-  awk '/^require \(/{p=1} p{print} /^\)/{if(p){p=0;print ""}}' /repo/go.mod
-  grep -E '^require [^(]' /repo/go.mod || true
-  awk '/^replace \(/{p=1} p{print} /^\)/{if(p){p=0;print ""}}' /repo/go.mod
-  grep -E '^replace [^(]' /repo/go.mod || true
+  awk '/^require \(/{p=1} p{print} /^\)/{if(p){p=0;print ""}}' $R/go.mod
+  grep -E '^require [^(]' $R/go.mod || true
+  awk '/^replace \(/{p=1} p{print} /^\)/{if(p){p=0;print ""}}' $R/go.mod
+  grep -E '^replace [^(]' $R/go.mod || true
 } > $H/go.mod.new
 mv $H/go.mod.new $H/go.mod
-cp /repo/go.sum $H/go.sum
+cp $R/go.sum $H/go.sum
